@@ -25,9 +25,10 @@ import (
 	"pgregory.net/rapid"
 
 	"verifharness/hx"
+	"verifharness/wire"
 )
 
-func TestMain(m *testing.M) { hx.Main(m) }
+func TestMain(m *testing.M) { wire.Init(true); hx.Main(m) }
 
 func genDur(t *rapid.T, label string) time.Duration {
 	switch rapid.IntRange(0, 4).Draw(t, label+"kind") {
@@ -276,6 +277,7 @@ func TestC19ResponseHeaderTimeout(t *testing.T) {
 			transport.SetConfig(cfg)
 			tg := &route.Target{Service: "svc", URL: upURL, TLSSkipVerify: kind == "skip-verify"}
 			p := &proxy.HTTPProxy{
+				Stats:             wire.Stats(),
 				Config:            pcfg,
 				Transport:         transport.NewTransport(nil),
 				InsecureTransport: transport.NewTransport(&tls.Config{InsecureSkipVerify: true}),
@@ -305,7 +307,7 @@ func TestC19ResponseHeaderTimeout(t *testing.T) {
 			cfg.Proxy.ResponseHeaderTimeout = T
 			transport.SetConfig(cfg)
 			tg := &route.Target{Service: "svc", URL: upURL}
-			p := &proxy.HTTPProxy{Config: pcfg, Transport: transport.NewTransport(nil), InsecureTransport: transport.NewTransport(&tls.Config{InsecureSkipVerify: true}), Lookup: func(*http.Request) *route.Target { return tg }}
+			p := &proxy.HTTPProxy{Stats: wire.Stats(), Config: pcfg, Transport: transport.NewTransport(nil), InsecureTransport: transport.NewTransport(&tls.Config{InsecureSkipVerify: true}), Lookup: func(*http.Request) *route.Target { return tg }}
 			atomic.StoreInt64(&delay, int64(D))
 			const K = 16
 			type r struct {
